@@ -1,7 +1,7 @@
 (* Model/Entry.v — the single dispatch table through which the correspondence drivers run the model.
    Every entry takes the flattened integer arguments of a case line and returns the flattened result. *)
 From Coq Require Import ZArith List String.
-From TV Require Import Base.Int32 Model.Numeric Model.Decomp.
+From TV Require Import Base.Int32 Model.Numeric Model.Decomp Model.Lwe Model.Poly Model.Tlwe Model.KeySwitch.
 Import ListNotations.
 Local Open Scope string_scope.
 
@@ -9,7 +9,9 @@ Definition table : list (string * (list Z -> list Z)) :=
   [ ("msf", entry_msf); ("aph", entry_aph); ("mst", entry_mst);
     ("dtot", entry_dtot); ("t32tod", entry_t32tod);
     ("decomp", entry_decomp); ("decomp_avx", entry_decomp_avx); ("tgswparams", entry_tgsw_params);
-    ("tlwedecomp", entry_tlwe_decomp) ].
+    ("tlwedecomp", entry_tlwe_decomp);
+    ("lwephase", entry_lwephase); ("lwelin", entry_lwelin); ("poly", entry_poly); ("tlwe", entry_tlwe);
+    ("keyswitch", entry_keyswitch); ("ksdigits", entry_ksdigits) ].
 
 Fixpoint lookup (name : string) (t : list (string * (list Z -> list Z))) : option (list Z -> list Z) :=
   match t with
